@@ -29,7 +29,7 @@ def check_boundary_region(run, rb, parent_mesh, label=None, precondition_valid=T
     dA, dV, n = np.asarray(rb.dA), np.asarray(rb.dV), np.asarray(rb.normals)
     dA_d, n_d = dA[:dim], n[:dim]
     scale = float(np.abs(dV).sum())
-    key = "celltype=%s only_surface=%s " % (ct, bool(rb.only_surface))
+    key = "celltype=%s only_surface=%s " % (tag if label else ct, bool(rb.only_surface))
 
     # preconditions: the parent mesh must be valid (positive volumes) for the clauses to apply
     V = getattr(fem, VOLUME_REGION[ct])(parent_mesh)
